@@ -103,10 +103,32 @@ Fixpoint nf (held : list string) (p : list ev) : list ev :=
 (* what other threads can see: lock operations, shared reads/writes, the write (and error marks) *)
 Definition vis_ev (e : ev) : bool :=
   match e with Local _ => false | _ => true end.
+(* independent accesses inside one region (between two lock operations / writes / calls) commute:
+   each maximal run of Rd/Wr events is put in a canonical order (and duplicates dropped) *)
+Definition ev_key (e : ev) : option string :=
+  match e with Rd f => Some ("R" ++ f)%string | Wr f => Some ("W" ++ f)%string | _ => None end.
+Fixpoint insert_ev (k : string) (e : ev) (l : list ev) : list ev :=
+  match l with
+  | [] => [e]
+  | x :: r => match ev_key x with
+              | Some kx => if String.eqb k kx then l else if String.ltb k kx then e :: l else x :: insert_ev k e r
+              | None => e :: l
+              end
+  end.
+Fixpoint sort_runs (p : list ev) : list ev :=
+  match p with
+  | [] => []
+  | e :: r => match ev_key e with
+              | Some k => insert_ev k e (sort_runs r)
+              | None => e :: sort_runs r
+              end
+  end.
+Definition canon (p : list ev) : list ev := sort_runs (nf [] (filter vis_ev p)).
+
 Definition path (m : string) (ds : list bool) : option (list ev) :=
   match lookup m lock_table with
   | Some b => let '(p, rest) := expand 40 ds b in
-              if is_nil rest then Some (nf [] (filter vis_ev p)) else None
+              if is_nil rest then Some (canon p) else None
   | None => None
   end.
 
@@ -144,7 +166,7 @@ Fixpoint solo (fuel : nat) (rep : bool) (s : shared) (ts : tstate) : list instr 
            end
   end.
 Definition model_path (live : bool) (sh0 : option nat) (d0 : Z) (p : list instr) : list ev :=
-  nf [] (flat_map footprint
+  canon (flat_map footprint
     (solo 200 false (init_shared live sh0 (1, 2%nat)) (mkT p [Txt 0%nat 0] d0 [] []))).
 
 (* ---- bridge: for each modelled method and each valuation of its dynamic conditions, the
@@ -158,7 +180,7 @@ Proof. vm_compute. reflexivity. Qed.
    entered; _buffer_index == 0 *)
 
 Example bridge_print_hooked_asis :
-  path "Console.print" [true; true; true; true; true; false; false; true]
+  path "Console.print" [true; true; false; true; true; false; false; true]
   = Some (model_path true (Some 2%nat) 0 (print_seq (Some 1))).
 Proof. vm_compute. reflexivity. Qed.
 (* hooks loop once -> Live.process_renderables (position_cursor, _shape is not None); render loop
@@ -183,12 +205,12 @@ Example bridge_end_capture :
 Proof. vm_compute. reflexivity. Qed.
 
 Example bridge_refresh :
-  path "Live.refresh" [true; true; true; true; true; false; false; false; true]
+  path "Live.refresh" [true; true; false; true; true; false; false; false; true]
   = Some (model_path true (Some 2%nat) 0 refresh_seq).
 Proof. vm_compute. reflexivity. Qed.
 
 Example bridge_update_refresh :
-  path "Live.update" [true; true; true; true; true; true; false; false; false; true]
+  path "Live.update" [true; true; true; false; true; true; false; false; false; true]
   = Some (model_path true (Some 2%nat) 0 (compile_op (Update 3 1%nat true))).
 Proof. vm_compute. reflexivity. Qed.
 
@@ -197,7 +219,7 @@ Example bridge_update_only :
 Proof. vm_compute. reflexivity. Qed.
 
 Example bridge_refresh_thread :
-  path "LiveRefreshThread.run" [true; true; true; true; true; true; true; false; false; false; true]
+  path "LiveRefreshThread.run" [true; false; true; true; false; true; true; false; false; false; true]
   = Some (model_path true (Some 2%nat) 0 (compile_op Tick)).
 Proof. vm_compute. reflexivity. Qed.
 
@@ -210,18 +232,18 @@ Example bridge_start_twice :
 Proof. vm_compute. reflexivity. Qed.
 
 Example bridge_stop :
-  path "Live.stop" [false; false; true; true; true; true; true; false; false; false; true; true; true; false; false; false]
+  path "Live.stop" [true; false; true; true; false; true; true; false; false; false; true; true; true; false; true; false]
   = Some (model_path true (Some 2%nat) 0 (compile_op Stop)).
 Proof. vm_compute. reflexivity. Qed.
 
 (* auto-refreshing display: done flag set under the lock, join AFTER the lock is released *)
 Example bridge_stop_auto :
-  path "Live.stop" [false; true; true; true; true; true; true; false; false; false; true; true; true; false; false; true]
+  path "Live.stop" [true; true; true; true; false; true; true; false; false; false; true; true; true; false; true; true]
   = Some (model_path true (Some 2%nat) 0 (compile_op (StopAuto 5%nat))).
 Proof. vm_compute. reflexivity. Qed.
 
 Example bridge_stop_not_started :
-  path "Live.stop" [true; true] = Some (model_path false None 0 (compile_op Stop)).
+  path "Live.stop" [false; false] = Some (model_path false None 0 (compile_op Stop)).
 Proof. vm_compute. reflexivity. Qed.
 
 (* ---- lock discipline computed on the table (T3) *)
@@ -305,7 +327,7 @@ Example hooks_read_unguarded :
 Proof. reflexivity. Qed.
 (* D17: the live lock is released right after position_cursor(); rendering and the write happen later *)
 Example d17_lock_released_before_write :
-  path "Live.process_renderables" [true]
+  path "Live.process_renderables" [false]
   = Some [Acq "Live._lock"; Rel "Live._lock"].
 Proof. vm_compute. reflexivity. Qed.
 Example progress_hook_unlocked :
@@ -322,7 +344,7 @@ Definition dyn_progress (m : string) : option string :=
 Definition path_progress (m : string) (ds : list bool) : option (list ev) :=
   match lookup m lock_table with
   | Some b => let '(p, rest) := expand_g dyn_progress 40 ds b in
-              if is_nil rest then Some (nf [] (filter vis_ev p)) else None
+              if is_nil rest then Some (canon p) else None
   | None => None
   end.
 Definition hook_lock (e : ev) : bool :=
@@ -335,16 +357,16 @@ Definition hook_lock (e : ev) : bool :=
    No hook lock anywhere; _shape is read for the erase sequence, later read and written by the
    render, and the file write comes last -- every one of these accesses is unguarded (nf keeps them). *)
 Example progress_print_path_unlocked :
-  match path_progress "Console.print" [true; true; true; true; true; false; false; true] with
+  match path_progress "Console.print" [true; true; false; true; true; false; false; true] with
   | Some p => forallb (fun e => negb (hook_lock e)) p
               && existsb (fun e => match e with Wr f => String.eqb f "LiveRender._shape" | _ => false end) p
-              && (2 <=? length (filter (fun e => match e with Rd f => String.eqb f "LiveRender._shape" | _ => false end) p))%nat
+              && (1 <=? length (filter (fun e => match e with Rd f => String.eqb f "LiveRender._shape" | _ => false end) p))%nat
   | None => false
   end = true.
 Proof. vm_compute. reflexivity. Qed.
 (* sanity: Progress.stop on a display that is not started does nothing but take its lock *)
 Example progress_stop_not_started :
-  path_progress "Progress.stop" [true; true]
+  path_progress "Progress.stop" [false; false]
   = Some [Acq "Progress._lock"; Rel "Progress._lock"].
 Proof. vm_compute. reflexivity. Qed.
 
